@@ -307,8 +307,34 @@ def _merge_aggs(a, b):
     a["inconclusive"].extend(b["inconclusive"])
 
 
-def _worker(mod, specs, outpath, timeout):
+def _next_index(counter_path):
+    """Take the next case index from the counter file shared by the workers (under an advisory lock)."""
+    import fcntl
+    with open(counter_path, "r+") as f:
+        fcntl.flock(f, fcntl.LOCK_EX)
+        try:
+            i = int(f.read() or "0")
+            f.seek(0)
+            f.truncate()
+            f.write(str(i + 1))
+            f.flush()
+        finally:
+            fcntl.flock(f, fcntl.LOCK_UN)
+    return i
+
+
+def _worker(mod, specs, outpath, timeout, counter_path=None):
+    """Runs cases one after the other. With a counter file the workers share one queue (each takes the next case that nobody has taken
+    yet), so a few long cases do not make one worker finish long after the others."""
     agg = _new_agg()
+    if counter_path is not None:
+        while True:
+            i = _next_index(counter_path)
+            if i >= len(specs):
+                break
+            res = _run_in_child(mod, specs[i], timeout)
+            _merge(agg, res, specs[i])
+        specs = []
     for spec in specs:
         res = _run_in_child(mod, spec, timeout)
         _merge(agg, res, spec)
@@ -379,6 +405,9 @@ def main(argv=None):
     agg = _new_agg()
     try:
         pids = []
+        counter = os.path.join(tmp, "next")
+        with open(counter, "w") as f:
+            f.write("0")
         for w in range(jobs):
             out = os.path.join(tmp, "w%d.json" % w)
             sys.stdout.flush()
@@ -386,7 +415,7 @@ def main(argv=None):
             if pid == 0:
                 code = 0
                 try:
-                    _worker(mod, specs[w::jobs], out, timeout)
+                    _worker(mod, specs, out, timeout, counter)
                 except BaseException:
                     traceback.print_exc()
                     code = 3
